@@ -433,6 +433,7 @@ func (v *Verifier) verifyFunc(fc *FuncContract) []*Exec {
 func (v *Verifier) genFunc(fc *FuncContract, fn *ssa.Function, combo []int64, mustWrap map[string]bool) *Exec {
 	x := newExec(v, fc.Pkg, fc.Key, "")
 	x.funcProps = fc.Props
+	x.skipSafety = fc.NoSafety
 	x.mustWrap = mustWrap
 	for _, r := range fc.Reveal {
 		x.reveal[r] = true
